@@ -87,6 +87,11 @@ CHECKS.update({
         "text": "props/C11.v proves that nothing is written unless every object of the phase passed preflight, that an ObjectSet listing the same object twice (after the namespace default) writes nothing, and that namespaced ObjectSets / same-cluster ObjectSetPhases never write, delete or release outside their namespace or on cluster-scoped kinds. A duplicate-detection defect (a2bc3f3) and a scope-check defect (aa47ee3) were found and fixed.",
         "note": _SET_NOTE + " Dry-run verdicts are scripted by the recording server (rejects marked objects, cluster-scoped kinds with a namespace, namespaced kinds without one).",
     },
+    "C10": {
+        "technique": "PARTIAL: Coq theorems for per-request idempotence of every write PKO issues (apply, release patch, preconditioned delete, owner-reference merge) + fault enumeration on the real ObjectSet controller: every request of every pass x {error before effect, lost response}, fresh controller and cache per pass (restart anywhere), third-party drift, fair rounds to quiescence, end state vs undisturbed reference",
+        "text": "props/C10.v proves that repeating any request whose effect already took place changes nothing (what makes re-running a pass after a crash or lost response safe) and that re-applying an object right after a successful apply is a no-op. Convergence itself (same end state as the undisturbed run, zero state-changing writes at quiescence) is explored on the real controller over fresh/partial/handover/teardown/archive/paused/collision worlds with every request index as a fault point and drift before every pass; that part is fault enumeration, not proof.",
+        "note": "PARTIAL. Trusted: Coq kernel; Go harness (recording server with fault injection per request index, workload-controller and garbage-collector steps), Python driver. Not proved: multi-revision convergence under arbitrary fair schedules, workqueue fairness, real informers. Drift excludes stripping ownerReferences (re-adoption is refused by collision protection, C01) and is not repaired while paused (C09) or behind a collision (C01/C03). End states compare controllers (not demoted former owners) and ignore member status, which belongs to workload controllers.",
+    },
     "C16": {
         "technique": "Coq theorems over an executable model of one Package controller pass (pipeline of stages with oracle outcomes, every API request can fail before/after its effect; history invariant by induction) + differential correspondence of the real GenericPackageController/PackageDeployer request by request, monitor proved sound",
         "text": "Stage-failure => no ObjectDeployment write, persisted conditions, hash short cut, template = render and the history invariant are proved for all oracle outcomes, stored states and histories (props/C16.v). The constraints clause was refuted for the code before fix cb58cda (witness kept) and is proved for the repaired Deploy. The real controller runs on generated packages, environments, edit sequences, pull failures and per-request API faults.",
